@@ -22,7 +22,7 @@ func (c08) ID() string { return "C08" }
 func (c08) Meta(tier string) engine.Meta {
 	return engine.Meta{
 		Level: "model_checking",
-		Rule: "operator tables: two infix symbols (+ *) × {left, right, non-assoc} × binding power {3, 3.5, 4}, one prefix (~) and one postfix (!) symbol (quick: 81 tables with fixed prefix / postfix powers 3.75 / 3.25; thorough: prefix ∈ {3.25,3.75,10} × postfix ∈ {3.25,3.75,11} = 729 tables), the same 81 shapes at three other magnitudes of binding power (33…1000, 10^6…3·10^7, 0.0001…0.5), plus the built-in table, a table of identifier-like operators and a literal-forms table. For every table ALL token sequences up to the length bound over the family's alphabet are lexed and parsed by the real lexer + parser and by the reference (hand-written scanner + shunting-yard operator-precedence parser): accept / reject must agree, the trees must be identical, and every node's recorded span (rune range, line, column) must equal the span of the tokens it was built from; one family separates tokens by newlines so that lines and columns vary. A case is (family, table, first tokens); its run enumerates every suffix. non-trivial = every case (thousands of sequences each)",
+		Rule: "operator tables: two infix symbols (+ *) × {left, right, non-assoc} × binding power {3, 3.5, 4}, one prefix (~) and one postfix (!) symbol (quick: 81 tables with fixed prefix / postfix powers 3.75 / 3.25; thorough: prefix ∈ {3.25,3.75,10} × postfix ∈ {3.25,3.75,11} = 729 tables), the same 81 shapes at three other magnitudes of binding power (33…1000, 10^6…3·10^7, 0.0001…0.5), plus the built-in table, a table of identifier-like operators, three declaration orders of a table whose symbols are prefixes of one another (< <= << * **), 45 tables whose powers lie around the grammar's own call / member powers (11.5 … 13.5), and a literal-forms table. For every table ALL token sequences up to the length bound over the family's alphabet are lexed and parsed by the real lexer + parser and by the reference (hand-written scanner + shunting-yard operator-precedence parser): accept / reject must agree, the trees must be identical, and every node's recorded span (rune range, line, column) must equal the span of the tokens it was built from; one family separates tokens by newlines so that lines and columns vary. A case is (family, table, first tokens); its run enumerates every suffix. non-trivial = every case (thousands of sequences each)",
 		Bound: "sequences: full alphabet (13 symbols) length <= 5; operator-only, ternary and parenthesis alphabets (5 symbols) length <= 7 (thorough 9); built-in comparison / parenthesis alphabet (7 symbols) length <= 7; built-in table (15 symbols) length <= 5; literal forms (9 symbols) length <= 6 (thorough 7)",
 		Assumptions: []string{"precedence semantics: an operator binds an operand while its left power exceeds the right power of what is open to its left; right-associative operators and ?: use the largest power below their own on the right; punctuation, call '(' 12, member '.' and subscript '[' 13, '?' 2 are fixed forms (parser/factory.go)"},
 	}
@@ -84,6 +84,30 @@ func oneTable(ops []ref.Op) func(string) [][]ref.Op {
 	return func(string) [][]ref.Op { return [][]ref.Op{ops} }
 }
 
+// overlapTables: symbols that are prefixes of one another, declared short-first, long-first and
+// interleaved (the registration must order them so that the longest symbol is tried first).
+func overlapTables(string) [][]ref.Op {
+	ops := []ref.Op{{Sym: "<", BP: 5, Fixity: "infixn"}, {Sym: "+", BP: 7, Fixity: "infixl"}, {Sym: "<=", BP: 5, Fixity: "infixn"},
+		{Sym: "<<", BP: 6, Fixity: "infixl"}, {Sym: "*", BP: 8, Fixity: "infixl"}, {Sym: "**", BP: 9, Fixity: "infixr"}}
+	long := []ref.Op{ops[2], ops[3], ops[5], ops[0], ops[1], ops[4]}
+	mixed := []ref.Op{ops[4], ops[3], ops[0], ops[5], ops[1], ops[2]}
+	return [][]ref.Op{ops, long, mixed}
+}
+
+// neighbourTables: user operators whose binding power lies around the grammar's own call (12) and
+// member / subscript (13) powers.
+func neighbourTables(string) [][]ref.Op {
+	var out [][]ref.Op
+	for _, f := range []string{"infixl", "infixr", "infixn"} {
+		for _, bp := range []float64{11.5, 12, 12.5, 13, 13.5} {
+			for _, pre := range []float64{12, 12.5, 13.5} {
+				out = append(out, []ref.Op{{Sym: "+", BP: bp, Fixity: f}, {Sym: "~", BP: pre, Fixity: "prefix"}, {Sym: "!", BP: 12.5, Fixity: "postfix"}})
+			}
+		}
+	}
+	return out
+}
+
 // parenTables: parentheses interact with associativity only where an operator is non-associative
 // (quick: the 45 tables with at least one non-associative symbol; thorough: all 81).
 func parenTables(tier string) [][]ref.Op {
@@ -121,6 +145,8 @@ func c08Families() []c08Family {
 		{"ops-small", []string{"a", "+", "*", "~", "!"}, scaledTables([]float64{0.25, 0.5, 0.0001}, 0.3, 0.2), 3, func(string) int { return 3 }, " "},
 		{"lines", []string{"a", "+", "*", "~", "!", "(", ")", "?", ":", ".", "[", "]", ","}, func(t string) [][]ref.Op { return abTables("quick")[:9] }, 2, func(string) int { return 3 }, "\n  "},
 		{"builtin", []string{"a", "1", "+", "-", "*", "^", "<", "==", "&&", "!", "not", "?", ":", "(", ")"}, func(string) [][]ref.Op { return [][]ref.Op{real.BuiltInOps()} }, 2, func(string) int { return 3 }, " "},
+		{"overlap", []string{"a", "<", "<=", "<<", "*", "**", "+", "(", ")"}, overlapTables, 2, func(string) int { return 3 }, " "},
+		{"neighbours", []string{"a", "+", "~", "!", ".", "[", "]", "(", ")"}, neighbourTables, 2, func(string) int { return 3 }, " "},
 		{"identop", []string{"a", "in", "not", "+", "(", ")", "ina"}, oneTable([]ref.Op{{Sym: "in", BP: 3.5, Fixity: "infixn"}, {Sym: "not", BP: 3.75, Fixity: "prefix"}, {Sym: "+", BP: 4, Fixity: "infixl"}}), 2, func(string) int { return 4 }, " "},
 		{"nonascii-op", []string{"a", "ˆ", "+ˆ", "+", "(", ")", "é"}, oneTable([]ref.Op{{Sym: "ˆ", BP: 9, Fixity: "infixr"}, {Sym: "+ˆ", BP: 7.5, Fixity: "infixn"}, {Sym: "+", BP: 7, Fixity: "infixl"}, {Sym: "é", BP: 10, Fixity: "prefix"}}), 2, func(string) int { return 4 }, " "},
 		{"literals", []string{"a", "[", "]", "{", "}", ":", ",", "(", ")"}, oneTable(nil), 2, func(t string) int {
